@@ -2,6 +2,7 @@ package main
 
 import (
 	"fmt"
+	"io"
 	"math/rand"
 	"net"
 	"os"
@@ -101,7 +102,11 @@ func (e *c09Env) runCase(c c09Case, rnd *rand.Rand) {
 	var seeds []string
 	if c.Proto == "redis" {
 		var err error
-		cl, err = fakecluster.New(2, 0)
+		nnodes := 2
+		if c.Placement == "serving-clients-being-recreated" {
+			nnodes = 6 // one backend client (and one creation) per node
+		}
+		cl, err = fakecluster.New(nnodes, 0)
 		if err != nil {
 			r.Internal("fakecluster: %v", err)
 			return
@@ -222,7 +227,7 @@ func (e *c09Env) runCase(c c09Case, rnd *rand.Rand) {
 			s.StopProc(name, 5*time.Second)
 			return
 		}
-	default: // "serving", "serving-deep-pipeline", "serving-backend-queue-full", "serving-after-host-replace": wait for the listener, open connections, put requests in flight
+	default: // "serving", "serving-deep-pipeline", "serving-backend-queue-full", "serving-clients-being-recreated", "serving-after-host-replace": wait for the listener, open connections, put requests in flight
 		up := false
 		for i := 0; i < 400 && !up; i++ {
 			if cc, err := net.DialTimeout("tcp", addr, time.Second); err == nil {
@@ -352,6 +357,26 @@ func (e *c09Env) runCase(c c09Case, rnd *rand.Rand) {
 			}
 		}
 		time.Sleep(time.Duration(10+rnd.Intn(40)) * time.Millisecond)
+		if c.Placement == "serving-clients-being-recreated" && cl != nil {
+			// every session keeps sending to every node while all backend connections are lost: the backend clients are being
+			// created again (one creation per node, queued on the registry lock) at the moment the service is stopped
+			for ci, cc := range clients {
+				go io.Copy(io.Discard, cc)
+				go func(ci int, cc net.Conn) {
+					for k := 0; k < 200000; k++ {
+						cc.SetWriteDeadline(time.Now().Add(2 * time.Second))
+						if _, err := cc.Write(resp.CmdS("SET", fmt.Sprintf("rc%d.%d", ci, k), "v")); err != nil {
+							return
+						}
+					}
+				}(ci, cc)
+			}
+			time.Sleep(20 * time.Millisecond)
+			for _, n := range cl.Nodes {
+				n.KillConns(true)
+			}
+			time.Sleep(time.Duration(rnd.Intn(4000)) * time.Microsecond)
+		}
 		if lateHook == "redis.client.write.before_handoff" {
 			if s.WaitParked(lateHook, 1, 3*time.Second) {
 				time.Sleep(50 * time.Millisecond) // the reply reaches the backend reader
@@ -377,6 +402,16 @@ func (e *c09Env) runCase(c c09Case, rnd *rand.Rand) {
 		if err := s.DrainProc(name, 6*time.Second); err != nil {
 			e.judgeHang(c, "drain", w)
 			return
+		}
+		if c.Placement == "bind-retrying" && occupier != nil {
+			// drained while the port was still occupied: when the port becomes free the service must not start accepting
+			// (the bind is retried every 500 ms)
+			occupier.Close()
+			time.Sleep(900 * time.Millisecond)
+			if !portRefuses(addr) {
+				r.Violation("C09:drain-forgotten:"+c.Proto, "StopListen was called while the bind was being retried; when the port became free the service bound it and accepts connections", w)
+			}
+			r.Count("drains_before_bind_judged", 1)
 		}
 		if c.Placement == "conn-accepted-not-registered" && hook == "listener.conn.before_register" && len(clients) > 0 {
 			// the connection whose accept had returned before the drain is an established one: once its handler goes on, it is served
@@ -625,6 +660,9 @@ func c09(r *ev.Run) {
 					c09Case{proto, "backend-writer-holds-request", "responsive", 1, "stop"}, c09Case{proto, "backend-writer-holds-request", "responsive", 1, "stop"},
 					c09Case{proto, "backend-writer-holds-request", "responsive", 1, "stop"}, c09Case{proto, "backend-writer-holds-request", "responsive", 1, "stop"},
 					c09Case{proto, "backend-writer-holds-request", "responsive", 1, "stop"}, c09Case{proto, "backend-writer-holds-request", "responsive", 1, "stop"},
+					c09Case{proto, "serving-clients-being-recreated", "responsive", 8, "stop"}, c09Case{proto, "serving-clients-being-recreated", "responsive", 8, "stop"},
+					c09Case{proto, "serving-clients-being-recreated", "responsive", 8, "stop"}, c09Case{proto, "serving-clients-being-recreated", "responsive", 8, "stop"},
+					c09Case{proto, "serving-clients-being-recreated", "responsive", 8, "stop"}, c09Case{proto, "serving-clients-being-recreated", "responsive", 8, "stop"},
 					c09Case{proto, "serving-backend-queue-full", "silent", 2, "stop"}, c09Case{proto, "serving-backend-queue-full", "not-reading", 1, "drain-then-stop"})
 			}
 			backs := []string{"silent", "not-reading", "closed"}
